@@ -210,6 +210,8 @@ def option_argv(o):
         a += ['--accept-regex', o['accept_regex']]
     if o['reject_regex']:
         a += ['--reject-regex', o['reject_regex']]
+    if o.get('tries'):
+        a += ['--tries', str(o['tries'])]
     return a
 
 
@@ -228,7 +230,7 @@ class RefCrawl:
         self.root = 'http://%s%s' % (HOST, site.start)      # single start URL: every record's root
         self.site = site
         self.o = opts
-        self.tries = tries
+        self.tries = opts.get('tries') or tries
         self.max_redirects = max_redirects
         self.start_hosts = start_hosts
 
